@@ -10,9 +10,9 @@ import (
 
 func init() {
 	register(&propDef{
-		ID:    "C11",
-		Title: "Weighted address selection is bounded, sound and proportional",
-		Run:   runC11,
+		ID:          "C11",
+		Title:       "Weighted address selection is bounded, sound and proportional",
+		Run:         runC11,
 		Explanation: "Structural necessary conditions, decided on SSA: (bounded) every append to a per-family candidate list in Wrs.Add is dominated by len(items) < MaxAnswers (or len(items) == 0 on the single-answer path), replacement never grows the list; (zero) a record is emitted only under Key > 0; (once) in every reader the located key is iterated only for a non-empty location, so the untagged rows are offered to the sampler once; (rand) the shared PRNG source is mutex-guarded, built only by NewRand and never re-seeded or Read from; (max) the answer limit given to FindAnswer is the listener's value from the context or the default constant 1, written and read under one context key, and the additional-section sampler uses the literal 1. Proportionality and the exact count (floating-point keys) are not decided.",
 	})
 }
@@ -23,6 +23,7 @@ func runC11(c *Ctx) {
 	c11Once(c)
 	c11Rand(c)
 	c11Max(c)
+	c11WeightArith(c)
 }
 
 func c11Bounded(c *Ctx) {
